@@ -205,11 +205,12 @@ def hGenerate : Handler
     let name ← pText name; let email ← pText email; let keysize ← pNat keysize; let nizk ← pNat nizk
     let fuel ← pNat fuel; let coins ← pList coins; let coins ← coins.mapM pHex
     let plog ← pPrimeLog plog; let log ← pOLog log
-    let run (d : Bool) : String := withO log fun O =>
-      match RabinGen.generate O (fun x => (plog.lookup x).getD d) name email keysize (nizk = 1) fuel coins with
+    -- two replays with different defaults for unknown queries of all three oracles
+    let run (d : Bool) (dflt : Nat) : String :=
+      match RabinGen.generate (mkOracles log dflt) (fun x => (plog.lookup x).getD d) name email keysize (nizk = 1) fuel coins with
       | .ok K => hexText (secText K)
       | .error e => toString e
-    let a := run true; let b := run false
+    let a := run true 0xAA; let b := run false 0x55
     some (if a = b then a else "oracle-mismatch")
   | _ => none
 
